@@ -43,7 +43,7 @@ def check(run):
     U = vlib.universe(run, ECOS)
     acc = vlib.accepted(run, exe, U)
     rnd = random.Random(run.seed)
-    rounds = 1 if quick else 6
+    rounds = 1 if quick else 12
     jobs = []
     for r in range(rounds):
         jobs += gen_round(run, exe, acc, rnd, r, 18 if quick else 30)
